@@ -96,9 +96,14 @@ def judge_case(col: common.Collector, ll: codecrun.LoadedLayer, msg: Dict[str, A
 
     if o.overlap_warnings:
         # the description makes two objects claim the same bits and the encoder said so: what
-        # the later object overwrote cannot be expected back (nor to be decodable at all)
-        col.count("not-judged:overlap-warning-issued")
-        return
+        # the later object overwrote cannot be expected back (nor to be decodable at all).
+        # That excuse only holds if the description really overlaps: a warning for a layout in
+        # which the reference finds no bit claimed twice does not excuse anything
+        k0, e0 = codecrun.ref_encode(ll.ref, msg, values, request)
+        if not (k0 == "ok" and not e0.overlap and not e0.endmarker):
+            col.count("not-judged:overlap-warning-issued")
+            return
+        col.count("overlap-warning-without-overlap")
     d = codecrun.decode(obj, pdu)
     if not d.ok and d.exc_type == "DecodeMismatch" and any(p["p"] == "NRC-CONST" for p in msg["params"]):
         # which NRC values a negative response admits is a matching question (C06)
